@@ -236,6 +236,50 @@ CHECKS = {
         note=COMMON_NOTE + " Translator trusted (cross-checked by the exact evaluation); numpy/scipy matmul/inv up to rounding bridged case by case by first-order error bounds; the Q-matrix model is a second reading of the source, not proved equal to the mathcomp terms.",
         technique="Coq/mathcomp proof over an arbitrary ordered field on matrix terms translated from the source on every run + exact-rational vm_compute evaluation + numeric law sweep",
         design="5/C17"),
+    "C04": dict(
+        text=("Theorems (closed under the global context) about the model of Collocator.collocate (common time window, sort, "
+              "row-major flattening of grids, NaN index arrays, build-side choice, index cache, temporal pre-binning with offsets "
+              "and dataset swap, temporal check, compaction): pairs_exact - the reported id pairs are exactly the pairs within "
+              "distance, within max_interval (whole seconds) and inside [start, end], None iff there is none, for EVERY tuning (bin "
+              "width and origin, magnitude_factor, path threshold - hence both code paths) and every Collocator state; "
+              "invariant_under_tuning; history_independent (after any list of earlier calls the result equals that of a fresh "
+              "Collocator); transpose; trunc_check_equiv; search_exact_any_cache; array_equal_test_sound, with the as-found allclose "
+              "cache test refuted (asis_cache_refuted). The spatial tree is a Section hypothesis (near = chord <= max_distance; "
+              "GeoIndex.query is C06). NOT proved, checked on every generated case: each pair once, interval / distance values. "
+              "Tie: generated histories of 1-5 calls on one Collocator (flat / grid, labelled / unlabelled, NaNs, poles, date line, "
+              ">1e6-candidate binned cases), id-pair sets compared with the specification evaluated in Coq on an exact-integer "
+              "long-double chord oracle with a guard band."),
+        note=COMMON_NOTE + " xarray where/dropna/sortby/sel/stack and pandas Grouper/searchsorted are modelled by filter, stable sort, flattening and fixed-width bins (the theorem holds for every bin origin); threshold parsing trusted; max_interval=None, max_distance=None and sub-second max_interval are outside the claim.",
+        technique="Coq refinement proof (executable model = brute-force specification, induction over lists/bins, lia) + differential correspondence on generated call histories evaluated by vm_compute",
+        design="5/C04"),
+    "C14": dict(
+        text=("20 theorems over the reals about a hand model on lists built on kernels and the ISA table TRANSLATED from the source on "
+              "every run: integrate_column (trapz) equals the Riemann integral (Coquelicot RInt) of the piecewise-linear interpolant "
+              "over the whole range and segment by segment, is linear in y, additive at every grid point, sign-reversing, unit-spaced "
+              "by default and lane-wise on arrays of any rank (numpy's slice-wise algorithm); IWV >= 0 for both formulations; CRH = 1 "
+              "for the mixed-phase saturated profile (non-zero denominator discharged) and linear in q; pressure2height starts at 0, "
+              "is strictly increasing, and for an isothermal column lies within (RT/g) sum (r-1)^3/12 below (RT/g) ln(p0/p) "
+              "(layer_defect_bound for all r >= 1); the standard atmosphere is piecewise linear in height resp. ln p and both "
+              "addressings agree at the 8 tabulated levels. NOT proved (named gap): the convergence of the two IWV formulations under "
+              "grid refinement - checked numerically on four refinement levels. Tie: translation + interval enclosures proved in Coq "
+              "on grids of 2-50 levels (ranks 1-4, every axis) + an exact-rational law sweep up to 1e4 levels."),
+        note=COMMON_NOTE + " numpy reshape/trapezoid/diff/cumsum and scipy interp1d are hand-modelled and tied by the enclosures; IEEE rounding bridged pointwise; x given as an n-d array is not covered; real-number axioms, classic, funext in Print Assumptions.",
+        technique="Coq proof (lists over R, Coquelicot RInt, mean-value arguments, interval) on a hand model built on translated kernels + interval enclosures + exact-rational law sweep",
+        design="5/C14"),
+    "C18": dict(
+        text=("14 theorems about a list/real model of BMCI: window_sound - for S symmetric PSD with right inverse Sinv and a unit "
+              "eigenpair (lam, v), (d.v)^2 <= lam d^T Sinv d (Cauchy-Schwarz), hence every entry the chi-square pre-selection leaves "
+              "out has chi^2 >= 2 x2_max (> x2_max for x2_max > 0); predict returns the importance-weighted mean and standard "
+              "deviation - of the whole database for x2_max < 0, of exactly the entries inside the projection window otherwise -, "
+              "independent of the arrangement of the entries; the searchsorted slice equals the filter and commutes with order "
+              "embeddings; pruning_error bound; the double index bookkeeping yields exactly the window's entries in ascending x "
+              "(closed under the global context); the cdf is non-decreasing, in [0,1] and ends at exactly 1; quantiles are monotone "
+              "in tau and within the window's x range; the result is None (NaN) exactly when no entry carries weight. Tie: exact "
+              "comparison of window and index view on ranks inside Coq and float128 evaluation of the weighted sums with "
+              "enclosures that follow cond(S). x2_max = 0 (empty half-open window) is a documented boundary case."),
+        note=COMMON_NOTE + " numpy.linalg.inv / eig enter as hypotheses (residual-checked per instance); argsort/searchsorted/cumsum/interp/exp contracts assumed; float64-vs-real gap bridged by the float128 oracle; crps and pdf are outside the property; real-number axioms and funext in Print Assumptions.",
+        technique="Coq proof (Cauchy-Schwarz window soundness, weighted statistics and index-view bookkeeping of a list/real model) + differential execution against a float128 oracle and vm_compute on ranks",
+        design="5/C18"),
 }
 
 
